@@ -447,4 +447,34 @@ def pool_map(fn, items, init_fn, procs=None):
         return pool.map(fn, items, chunksize=max(1, len(items) // (procs * 8) or 1))
 
 
+def validate_parallel(module, cfg, traces, extra_files=None, timeout=2400, slice_size=600, jobs=None):
+    """tlc.validate_traces over slices of the batch in concurrent JVMs (each single-worker, as trace
+    validation requires); indexes in the result refer to the whole batch."""
+    from concurrent.futures import ThreadPoolExecutor
+    from harness import tlc
+    jobs = jobs or max(1, int(os.environ.get("VERIF_PROCS") or 12) // 1)
+    offs = list(range(0, len(traces), slice_size))
+    out = {"accepted": 0, "rejected": [], "states": 0, "generated": 0, "wall_s": 0.0, "cmd": "", "drift": []}
+    if not traces:
+        return out
+
+    def one(off):
+        return off, tlc.validate_traces(module, cfg, traces[off:off + slice_size], extra_files=extra_files,
+                                        timeout=timeout, chunk=slice_size)
+    with ThreadPoolExecutor(max_workers=min(jobs, len(offs))) as ex:
+        for off, tv in ex.map(one, offs):
+            out["accepted"] += tv["accepted"]
+            out["states"] += tv["states"]
+            out["generated"] += tv["generated"]
+            out["wall_s"] += tv["wall_s"]
+            out["cmd"] = tv["cmd"]
+            for r in tv["rejected"]:
+                r["index"] += off
+                out["rejected"].append(r)
+            for d in tv["drift"]:
+                d["index"] += off
+                out["drift"].append(d)
+    return out
+
+
 assert core  # (imported for REPO binding side effects in world)
